@@ -72,6 +72,65 @@ example :
       (honest (fun t => s!"h{t}") "k" 9 0 [[1], [2, 3]] 3)).map (·.2) =
     .ok (.posted [some 0, some 99, some 2, some 3]) := by decide
 
+/-- **rebuild_or_wait**: with some segments in the pool and some not (none of the short hashes of an absent
+segment is in the pool), the receive path posts the exact original block iff every segment is available;
+otherwise nothing is posted and the block is queued holding exactly the available transactions, in place. -/
+theorem rebuild_or_wait (s : State) (sh : TxId → SH) (key : String) (height : Int) (miner : TxId)
+    (marks : List Marked) (sender : Nat)
+    (hnew : s.seen.contains key = false) (hup : s.pool.up = true) (hok : ∀ m ∈ marks, SegOk s.pool sh m)
+    (hsize : ((1 + (flatOf marks).length : Nat) : Int) ≤ bigSlice) :
+    recvLt s (honest sh key height miner (marks.map (·.1)) sender) =
+      if marks.all (·.2) then
+        .ok (postChain { s with seen := key :: s.seen } key, .posted ((miner :: flatOf marks).map some))
+      else
+        .ok ({ s with seen := key :: s.seen,
+                      pend := s.pend ++ [⟨key, sender, height, s.now, (miner :: flatOf marks).map sh,
+                                           some miner :: (marks.map segSlots).flatten⟩] }, .queued) := by
+  have hm := missing_replicate ((miner :: flatOf marks).map sh) [sh miner] ((flatOf marks).map sh) [] (by simp)
+  have hf := fill_mixed s.pool sh marks hok [some miner] true
+  simp only [List.length_map, List.length_cons, List.length_nil, Nat.zero_add] at hm hf
+  unfold honest
+  have hflat : (marks.map (·.1)).flatten = flatOf marks := rfl
+  rw [hflat]
+  have hs := segSlots_all marks
+  generalize flatOf marks = flat at hm hf hsize hs ⊢
+  have e1 : ¬ (((1 + flat.length : Nat) : Int) < 0) := by omega
+  have e2 : ¬ (((1 + flat.length : Nat) : Int) > maxSlice) := by
+    unfold maxSlice; unfold bigSlice at hsize; omega
+  have e3 : ¬ (((1 + flat.length : Nat) : Int) > bigSlice) := by omega
+  have e4 : ¬ (((1 + flat.length : Nat) : Int) = 0) := by omega
+  have e5 : (((1 + flat.length : Nat) : Int)).toNat - 1 = flat.length := by
+    rw [Int.toNat_natCast]; omega
+  have hmiss : missing (List.map sh (miner :: flat)) (some miner :: List.replicate flat.length none) 0 =
+      .ok (enumWork 1 (List.map sh flat)) := by
+    simp only [missing]; exact hm
+  have hne : (List.map sh (miner :: flat)).isEmpty = false := by simp
+  unfold recvLt
+  simp only [hnew, Bool.false_eq_true, if_false, Bool.not_true, e1, e2, e3, e4, e5]
+  unfold build
+  simp only [hne, Bool.false_eq_true, if_false, hmiss, hup, Bool.not_true]
+  have hf' : fill s.pool (enumWork 1 (List.map sh flat)) (some miner :: List.replicate flat.length none) true =
+      .ok (some miner :: (marks.map segSlots).flatten, marks.all (·.2)) := by simpa using hf
+  rw [hf']
+  simp only
+  cases hall : marks.all (·.2) with
+  | true =>
+    simp [hs hall]
+  | false => simp
+
+/-- non-vacuity of `rebuild_or_wait`: transaction 1 pooled, the group [2,3] not -/
+example : ∀ m ∈ [(([1] : List TxId), true), ([2, 3], false)],
+    SegOk (pushAll (fun t => s!"h{t}") {} [[1]]) (fun t => s!"h{t}") m := by
+  intro m hm
+  simp only [List.mem_cons, List.mem_nil_iff, or_false] at hm
+  rcases hm with rfl | rfl
+  · simp only [SegOk, if_true]; exact ⟨1, [], rfl, by decide⟩
+  · simp only [SegOk, Bool.false_eq_true, if_false]
+    refine ⟨by simp, ?_⟩
+    intro t ht
+    simp only [List.mem_cons, List.mem_nil_iff, or_false] at ht
+    rcases ht with rfl | rfl <;> decide
+
 /-! ### missing transactions: wait, then fall back -/
 
 /-- **missing_waits**: while a queued block cannot be completed (`build` not done) and its pending time is
